@@ -137,17 +137,23 @@ GROUP = dict(
     trace_timeout={"quick": 600, "thorough": 3600},
     nontrivial=nontrivial,
     rule=("cases = meet-pass scenarios: TLC-enumerated (topology pattern x lockouts x train words over direction / departure "
-          "gap / length class) + seeded random corridors (0-3 sidings, 1-2 link main stretches, lockout foul links, grades, "
-          "1-7 trains); each goes through make_est_times and run_dispatch with the observer hook; distinct = distinct "
-          "descriptors; non-trivial = >= 2 trains or an alternative route"),
+          "gap incl. ties / length class / maximum speed / junction branch incl. two-origin trains) + seeded random ones: "
+          "corridors with 0-3 sidings (tracks with equal or different speed limits, primary often the slower), 1-2 link mains of "
+          "3-30 km, metre-precise link lengths incl. links 0-15 m longer than a train, lockout foul links, two-branch junctions "
+          "at either end (one or two origin / destination links per train), diamond crossings with long mutually exclusive "
+          "crossing links, grades, 1-7 trains of 15-150 cars with maximum speeds 5-20 m/s; each goes through make_est_times "
+          "and run_dispatch with the observer hook; distinct = distinct descriptors; non-trivial = >= 2 trains or an "
+          "alternative route"),
     props={
         "C04": dict(invariants=["OppExclusive", "LockoutExclusive", "Headway", "Fifo"],
                     assumptions=["occupancy windows are derived from each train's own timed plan (disp_path), not from "
                                  "DispAuth.arrive_entry which update_occupancy rewrites when a train exits (observation F-C04-1)",
                                  "'following' = consecutive users of a directed link with no opposing use of the segment in between "
                                  "(the code applies spacing only then); headway = the dispatcher's time_spacing (8 min)",
-                                 "scenario family: corridors with sidings and lockout foul links; junctions with several O/D links are "
-                                 "not generated (make_est_times aborts on them: observation F-C15-2)"]),
+                                 "a train longer than the rest of its route (destination link shorter than the train) holds its links "
+                                 "until it leaves the network: the planner treats it as gone when its path ends (observation F-C04-2)",
+                                 "scenario family: corridors, sidings, lockout foul links, two-branch junctions, diamond crossings; Y "
+                                 "junctions in the middle of a route with several O/D links are not generated"]),
         "C05": dict(invariants=["RouteValid", "Complete", "HaveFinalSnapshot", "ResultIsFinalPlan", "AllTimed", "AllCommitted",
                                 "FreeRun", "PlanIsWalk", "ErrNamesTrains", "NoPanic", "FinalAllTimed", "MonotonePlan"],
                     assumptions=["memory safety is observed, not proved: the harness build has debug assertions, overflow checks and "
